@@ -83,13 +83,13 @@ def floors(tier):
             'tag_checked': 3000, 'tag_registry_checked': 150, 'manifest_checked': 500, 'package_checked': 80, 'components_checked': 80,
             'release_key_checked': 2000, 'release_invalid_rejected': 300, 'generation_key_checked': 1500, 'generation_invalid_rejected': 40,
             'listing_checked': 400, 'registry_listing_checked': 40, 'volatile_listing_checked': 16, 'directed_checked': 40,
-            'commit_checked': 60, 'commit_gapped_checked': 30,
+            'commit_checked': 60, 'commit_gapped_checked': 30, 'reinstall_steps': 100,
         }
     return {
         'tag_checked': 100000, 'tag_registry_checked': 8000, 'manifest_checked': 12000, 'package_checked': 1500, 'components_checked': 1500,
         'release_key_checked': 40000, 'release_invalid_rejected': 8000, 'generation_key_checked': 40000, 'generation_invalid_rejected': 40,
         'listing_checked': 30000, 'registry_listing_checked': 800, 'volatile_listing_checked': 300, 'directed_checked': 40,
-        'commit_checked': 700, 'commit_gapped_checked': 350,
+        'commit_checked': 700, 'commit_gapped_checked': 350, 'reinstall_steps': 1000,
     }
 
 
@@ -512,6 +512,91 @@ def check_two_releases(ctx, env, case):
     finally:
         sys.path[:] = syspath
         env.drop(root)
+
+
+def check_reinstall(ctx, env, case):
+    """A sequence of packages installed one after the other into ONE target path (a dev release rebuilt under the same version
+    with another package name / module map, the next version, another project, ...): after every install the artifact loads
+    the components of the package just installed.  case: {'specs': [spec...]} - consecutive manifests always differ."""
+    import sys
+
+    project, pg = env.project, env.pg
+    ctx.count('evaluations')
+    ctx.count('reinstall_checked')
+    witness = {'kind': 'reinstall', 'case': case}
+    ctx.shape(('reinstall', [(sp['name'], sp['version'], sp['package'], sorted(sp['modules'].items()), sp['kind']) for sp in case['specs']]))
+    root = env.scratch()
+    syspath = list(sys.path)
+    try:
+        target = root / 'inst' / 'target'
+        previous = None
+        for index, spec in enumerate(case['specs']):
+            source = pg.generate(spec, str(root / f'src{index}'))
+            try:
+                manifest = project.Manifest(spec['name'], spec['version'], spec['package'], **spec['modules'])
+                if previous is not None and manifest == previous:
+                    ctx.count('reinstall_equal_manifest_skipped')
+                    return
+                previous = manifest
+                if spec['kind'] == 'zip':
+                    package = project.Package.create(source, manifest, root / f'out{index}.{project.Package.FORMAT}')
+                else:
+                    manifest.write(source)
+                    package = project.Package(source)
+                artifact = package.install(target)
+                got = load_description(env, artifact)
+            except Exception as err:  # pylint: disable=broad-except
+                ctx.violation('reinstall-raises', f'install #{index + 1} of {tuple(manifest)} over {"nothing" if not index else "an older install"}'
+                                                  f' raised {err!r}', witness)
+                return
+            want = pg.expected(spec)
+            if {k: got[k] for k in want} != want:
+                ctx.violation('reinstall-components-differ', f'install #{index + 1} into an occupied target: components {got} but the '
+                                                             f'package defines {want}', witness)
+                return
+            try:
+                stored = project.Manifest.read(artifact.path) if os.path.isdir(str(artifact.path)) else project.Package(artifact.path).manifest
+            except Exception as err:  # pylint: disable=broad-except
+                stored = repr(err)
+            if stored != manifest:
+                ctx.violation('reinstall-manifest-differs', f'install #{index + 1}: target holds {stored}, installed {tuple(manifest)}', witness)
+                return
+            ctx.count('reinstall_steps')
+    finally:
+        sys.path[:] = syspath
+        env.drop(root)
+
+
+def gen_reinstall(env, rng, serial):
+    """2-3 packages for one target: each step changes the package name, the module map, the version, the project or the kind."""
+    first = gen_spec(env, rng, f'{serial}a')
+    first['helper'] = False  # the stale-sibling-module finding (helper modules cached across releases) is not this monitor's
+    first['via'] = 'install'
+    specs = [first]
+    for step in range(rng.choice([1, 1, 2])):
+        nxt = gen_spec(env, rng, f'{serial}{"bc"[step]}')
+        nxt['helper'] = False
+        nxt['via'] = 'install'
+        change = rng.choice(['package', 'modules', 'version', 'name', 'all'])
+        base = specs[-1]
+        if change != 'all':
+            nxt['name'], nxt['version'] = base['name'], base['version']
+        if change == 'modules':  # same package name, other component module paths (and content)
+            nxt['package'] = base['package']
+            leafs = {c: f'{base["package"]}.re{step}.{c}_x' for c in rng.sample(['source', 'pipeline'], rng.choice([1, 2]))}
+            nxt['modules'] = leafs
+            if nxt['evaluation'] is None:
+                nxt['modules'].pop('evaluation', None)
+        elif change == 'version':
+            nxt['package'], nxt['modules'] = base['package'], dict(base['modules'])
+            nxt['evaluation'] = base['evaluation']
+            nxt['version'] = '99' if base['version'].strip() != '99' else '98'
+        elif change == 'name':
+            nxt['package'], nxt['modules'] = base['package'], dict(base['modules'])
+            nxt['evaluation'] = base['evaluation']
+            nxt['name'] = base['name'] + 'x'
+        specs.append(nxt)
+    return {'specs': specs}
 
 
 # ---------------------------------------------------------------------------------------------------- keys
@@ -1009,6 +1094,15 @@ def directed(ctx, env):
     check_manifest_rewrite(ctx, env, {'name': 'rewrite', 'versions': ['1.0.1', '1.0.2'], 'package': 'p', 'bytecode': True})
     check_two_releases(ctx, env, {'helper': False, 'thresholds': [11, 22], 'package': 'twiceinline'})
     check_two_releases(ctx, env, {'helper': True, 'thresholds': [11, 22], 'package': 'twicehelper'})
+    base = {'name': 're', 'version': '1.0.dev1', 'package': 'rea', 'modules': {}, 'threshold': 1, 'columns': ['a'], 'label': 'b', 'marks': ['m1'],
+            'evaluation': None, 'data': [], 'helper': False, 'kind': 'zip', 'via': 'install'}
+    for kind in ('zip', 'dir'):
+        check_reinstall(ctx, env, {'specs': [dict(base, kind=kind), dict(base, kind=kind, package='reb', threshold=2, marks=['m2'])]})
+        check_reinstall(ctx, env, {'specs': [dict(base, kind=kind, package=f'rec{kind}'),
+                                             dict(base, kind=kind, package=f'rec{kind}', threshold=3, marks=['m3'],
+                                                  modules={'pipeline': f'rec{kind}.other.pipe'})]})
+        check_reinstall(ctx, env, {'specs': [dict(base, kind=kind, package=f'red{kind}'),
+                                             dict(base, kind=kind, package=f'ree{kind}', version='1.0.dev2', threshold=4, marks=['m4'])]})
     for pair in o.INVALID_GENERATIONS:
         check_generation_invalid(ctx, env, pair)
     for text in o.LENIENT_GENERATIONS:
@@ -1064,6 +1158,8 @@ def workload(ctx, env):
         check_package(ctx, env, spec)
         if index == 1 and ctx.shard % 2 == 1:
             ctx.sample({'package': spec})
+    for index in range(ctx.pick(12, 80)):
+        check_reinstall(ctx, env, gen_reinstall(env, rng, f'_{ctx.shard}_r{index}'))
     # ---- keys
     for _ in range(ctx.pick(150, 1200)):
         pool = [o.gen_version(rng) for _ in range(rng.randint(1, 5))]
@@ -1106,6 +1202,8 @@ def replay(ctx, witness):
             check_package(ctx, env, witness['spec'])
         elif kind == 'two-releases':
             check_two_releases(ctx, env, witness['case'])
+        elif kind == 'reinstall':
+            check_reinstall(ctx, env, witness['case'])
         elif kind == 'release-keys':
             check_release_keys(ctx, env, witness['texts'])
         elif kind == 'release-candidate':
